@@ -45,6 +45,8 @@ ASSUMPTIONS = [
     "API (where, argmax, cumsum, reshape, dot, std/var, boolean-mask indexing, ...) is never generated",
     "float results compared with rtol=1e-9 (summation order may differ from NumPy), integers/bools exactly",
     "no explicit zero-size chunks in the sources (C19-C24 own that stratum); zero-length arrays can arise from slices",
+    "chunks are compared with the classic engine up to zero-size chunks: a slice can leave an empty block, which the two engines "
+    "keep/drop differently in later steps (counter chunks_differ_only_by_empty_chunks); empty blocks carry no data",
     "the expression engine of the pinned tree has no simplify rules for arrays; 'optimize changed the tree' therefore "
     "means lowering rewrote it (Rechunk -> TasksRechunk/identity, blockwise chunk alignment, reduction trees)",
 ]
@@ -164,7 +166,12 @@ def evaluate(spec):
         ensure(bad is None, f"expr result vs NumPy: {bad and bad[0]}", bad and bad[1], stage="numpy", **sig)
     ensure(tuple(plain["shape"]) == got.shape, f"lazy shape {plain['shape']} != computed {got.shape}", "lazy-shape-mismatch", stage="meta", **sig)
     ensure(np.dtype(plain["dtype"]) == got.dtype, f"lazy dtype {plain['dtype']} != computed {got.dtype}", "lazy-dtype-mismatch", stage="meta", **sig)
-    ensure(plain["chunks"] == cchunks, f"expr chunks {plain['chunks']} != classic engine chunks {cchunks}", "chunks-differ-from-classic", stage="classic", **sig)
+    if plain["chunks"] != cchunks:
+        # zero-size chunks (they arise from slices that leave nothing of a block) carry no data; whether an engine keeps or
+        # drops them is not compared (pathological stratum, see ASSUMPTIONS) -- everything else must be identical
+        nz = lambda ch: [[c for c in ax if c != 0] or [0] for ax in ch]  # noqa: E731
+        ensure(nz(plain["chunks"]) == nz(cchunks), f"expr chunks {plain['chunks']} != classic engine chunks {cchunks}", "chunks-differ-from-classic", stage="classic", **sig)
+        count("chunks_differ_only_by_empty_chunks")
     for name in ("optimize", "simplify", "lower"):
         o = v[name]
         for k in ("chunks", "shape", "dtype"):
